@@ -352,3 +352,7 @@ func Yield(what string) { runtime.Gosched() }
 // KnownDeadlockIf attributes a deadlock detected by the engine to the known
 // finding id when *cond holds at that moment.
 func KnownDeadlockIf(id string, cond *bool) {}
+
+// KnownCrashIf attributes an uncaught panic / runtime fatal error to the
+// known finding id when *cond holds at that moment.
+func KnownCrashIf(id string, cond *bool) {}
